@@ -651,6 +651,14 @@ var c04Corpus = [][]string{
 		":alice!a@h MODE #c +q bob",
 		":alice!a@h MODE #c +qv-o alice bob alice",
 	},
+	{ // mode letters >= 0x80: the state API spells a letter string(byte), i.e. as the two-byte UTF-8 encoding of U+0080..U+00FF
+		":srv 001 me :Welcome",
+		":srv 005 me PREFIX=(ov)@+ CHANMODES=b,k,l,imnpst :are supported by this server",
+		":me!~me@my.host JOIN #c",
+		":srv 353 me = #c :me @alice bob",
+		":alice!a@h MODE #c +\xe9k\x80 key",
+		":alice!a@h MODE #c +m-\x80",
+	},
 }
 
 func runC04(c *Ctx) {
